@@ -818,8 +818,12 @@ func (r *resolver) expandAugment(y *Augment, parent Meta) error {
 	}
 
 	for _, orig := range y.Actions() {
+		hasActions, validActions := target.(HasActions)
+		if !validActions {
+			return fmt.Errorf("%s - augment target %s does not allow actions", SchemaPath(y), y.ident)
+		}
 		d := orig.clone(target).(Definition)
-		if err := target.(HasActions).addAction(d.(*Rpc)); err != nil {
+		if err := hasActions.addAction(d.(*Rpc)); err != nil {
 			return err
 		}
 		if _, err := r.enter(d); err != nil {
@@ -828,8 +832,12 @@ func (r *resolver) expandAugment(y *Augment, parent Meta) error {
 	}
 
 	for _, orig := range y.Notifications() {
+		hasNotifs, validNotifs := target.(HasNotifications)
+		if !validNotifs {
+			return fmt.Errorf("%s - augment target %s does not allow notifications", SchemaPath(y), y.ident)
+		}
 		d := orig.clone(target).(Definition)
-		if err := target.(HasNotifications).addNotification(d.(*Notification)); err != nil {
+		if err := hasNotifs.addNotification(d.(*Notification)); err != nil {
 			return err
 		}
 		if _, err := r.enter(d); err != nil {
